@@ -94,6 +94,13 @@ def render (v : Pos → String) : List Int → Pos → String
   | [], suf => v suf
   | d :: ds, suf => "(" ++ ",".intercalate ((List.range d.toNat).map fun (i : Nat) => render v ds ((i : Int) :: suf)) ++ ")"
 
+/-- multilinear interpolation: `hi` are the offsets (0 or 1) already chosen for the coordinates `≥ n`; coordinate
+    `n - 1` is interpolated with its fractional part `fr (n-1)` between the two values one level down; at level 0
+    the value is the cell at `fl + hi` -/
+def multilin {α φ : Type} (v : Pos → α) (ip : φ → α → α → α) (fl : Pos) (fr : Nat → φ) : Nat → Pos → α
+  | 0, hi => v (List.zipWith (· + ·) hi fl)
+  | n + 1, hi => ip (fr n) (multilin v ip fl fr n (0 :: hi)) (multilin v ip fl fr n (1 :: hi))
+
 instance : (mn sp p : Pos) → Decidable (InBox mn sp p)
   | [], [], [] => isTrue trivial
   | m :: ms, s :: ss, x :: xs =>
